@@ -7,3 +7,5 @@ func rulesEffC12(c *Ctx, r *Report) {}
 func rulesEffC13(c *Ctx, r *Report) {}
 
 func rulesEffC14(c *Ctx, r *Report) {}
+
+func rulesSamCodec(c *Ctx, r *Report) {}
